@@ -15,8 +15,8 @@ import traceback
 from pathlib import Path
 
 VERIF = Path(__file__).resolve().parent.parent
-EVIDENCE = VERIF / "evidence"
-REPLAYS = VERIF / "replays"
+EVIDENCE = Path(os.environ.get("VERIF_EVIDENCE_DIR") or VERIF / "evidence")  # redirected only by tools/mutate.py
+REPLAYS = Path(os.environ.get("VERIF_REPLAY_DIR") or VERIF / "replays")
 KNOWN = VERIF / "known_findings.json"
 GUARD = "PYFUZZYLITE_VERIF"
 
@@ -271,7 +271,8 @@ def finish(prop, tier, seed, merged, wall, inconclusive_reasons, workers):
             seen[v["mechanism"]] += 1
             if seen[v["mechanism"]] > 2:
                 continue
-            name = f"{prop}-{tier}-s{seed}-{v['mechanism'][:60].replace('/', '_').replace(' ', '_')}-{seen[v['mechanism']]}.json"
+            slug = "".join(ch if ch.isalnum() or ch in "-_.=" else "_" for ch in v["mechanism"])[:70]
+            name = f"{prop}-{tier}-s{seed}-{slug}-{digest(v['mechanism']) % 100000:05d}-{seen[v['mechanism']]}.json"
             path = REPLAYS / name
             path.write_text(json.dumps({"property": prop, "tier": tier, "seed": seed, **v}, indent=1))
             replay_paths.append((v["mechanism"], path))
